@@ -145,6 +145,9 @@ func (r *Reader) end() int {
 // Offset is the number of bytes delivered (or the position after seeks).
 func (r *Reader) Offset() int { return r.off }
 
+// StartOffset is the position the reader was handed over at.
+func (r *Reader) StartOffset() int { return r.plan.Start }
+
 func (r *Reader) tick() {
 	r.Calls++
 	if r.Budget > 0 && r.Calls > r.Budget {
